@@ -1,4 +1,5 @@
 import PbVerif.Lemmas.Whittaker
+import PbVerif.Lemmas.Kron2d
 /-! C06 — Whittaker baselines solve the documented penalised least-squares system: the band arrays
 the methods assemble DENOTE the documented matrices, for every size, order, weight vector and
 storage layout (the solvers themselves are outside the model: each of their outputs is certified by an
@@ -32,5 +33,35 @@ theorem certificate_uses_DtD (n d i j : Nat) (hi : i < n) (hj : j < n) : dtdFast
 
 example : asmStd 5 2 1 [1, 2, 3, 4, 5] true false = [[2, 7, 9, 9, 6], [-2, -4, -4, -2, 0], [1, 1, 1, 0, 0]] := by decide +kernel
 example : denFull (asmAspls 5 2 1 [0, 0, 0, 0, 0] [1, 2, 3, 4, 5] false) 2 1 2 = 2 * -4 := by decide +kernel
+
+/-! ### 2-D: Kronecker-sum penalty (`two_d/_whittaker_utils.py: PenalizedSystem2D`) -/
+
+/-- **`kron_penalty_vec`**: over any commutative ring, for the row-major vec of an `M × N` array `V`,
+`(λ_r P_r ⊗ I_N + I_M ⊗ λ_c P_c) vec(V) = vec(λ_r P_r V + λ_c V P_cᵀ)`, entry `(i, j)`, for all `M`, `N` (Kronecker entries
+`(A ⊗ B)[a,b] = A[a/N, b/N]·B[a%N, b%N]` as `scipy.sparse.kron` lays them out) -/
+theorem kron_penalty_vec {α : Type} [CommRing α] (M N : Nat) (lr lc : α) (Pr Pc V : Nat → Nat → α) (i j : Nat) (hi : i < M) (hj : j < N) :
+    (∑ b ∈ Finset.range (M * N), (kronG (fun p q => lr * Pr p q) idG N (i * N + j) b + kronG idG (fun p q => lc * Pc p q) N (i * N + j) b)
+        * V (b / N) (b % N))
+      = lr * ∑ i' ∈ Finset.range M, Pr i i' * V i' j + lc * ∑ j' ∈ Finset.range N, V i j' * Pc j j' :=
+  kron_penalty_vec_G M N lr lc Pr Pc V i j hi hj
+/-- the documented 2-D matrix the certificate evaluates is exactly `diag(w) + λ_r D_r'D_r ⊗ I_n + I_m ⊗ λ_c D_c'D_c` -/
+theorem doc2d_is_kron_sum (m n dr dc : Nat) (lamr lamc : Rat) (w : List Rat) (a b : Nat) (ha : a < m * n) (hb : b < m * n) :
+    doc2d m n dr dc lamr lamc w a b = delta a b (w.getD a 0)
+      + (kronG (fun p q => lamr * dtdQ m dr p q) idG n a b + kronG idG (fun p q => lamc * dtdQ n dc p q) n a b) := by
+  rw [doc2d_eq_kron, pen2d_eq_kron_DtD m n dr dc lamr lamc a b ha hb]
+/-- the matrix assembled by `reset_diagonals` + `add_diagonal(w)` (what `direct_solve` receives) is the documented one -/
+theorem asm2d_den (m n dr dc : Nat) (lamr lamc : Rat) (w : List Rat) (a b : Nat) :
+    asm2d m n dr dc lamr lamc w a b = doc2d m n dr dc lamr lamc w a b := asm2d_eq_doc2d m n dr dc lamr lamc w a b
+/-- row `(i, j)` of the documented 2-D system applied to a row-major vec `v` (`V[p,q] = v[p·n+q]`):
+`w∘v + λ_r (D_r'D_r V) + λ_c (V D_c'D_c)` — the form of docs/algorithms_2d/whittaker -/
+theorem doc2d_apply_vec (m n dr dc : Nat) (lamr lamc : Rat) (w v : List Rat) (i j : Nat) (hi : i < m) (hj : j < n) :
+    sumL ((List.range (m * n)).map fun b => doc2d m n dr dc lamr lamc w (i * n + j) b * v.getD b 0)
+      = w.getD (i * n + j) 0 * v.getD (i * n + j) 0
+        + lamr * sumL ((List.range m).map fun i' => dtdQ m dr i i' * v.getD (i' * n + j) 0)
+        + lamc * sumL ((List.range n).map fun j' => v.getD (i * n + j') 0 * dtdQ n dc j j') := doc2d_mulVec m n dr dc lamr lamc w v i j hi hj
+
+example : asm2dRows 2 2 1 1 2 3 [1, 1, 1, 1] = [[6, -3, -2, 0], [-3, 6, 0, -2], [-2, 0, 6, -3], [0, -2, -3, 6]] := by decide +kernel
+example : (∑ b ∈ Finset.range (2 * 2), (kronG (fun p q => (2:Int) * (if p = q then 1 else -1)) idG 2 (1 * 2 + 0) b
+    + kronG idG (fun p q => (3:Int) * (if p = q then 1 else -1)) 2 (1 * 2 + 0) b) * ((fun p q => ((p + 2 * q : Nat) : Int)) (b / 2) (b % 2))) = -4 := by decide +kernel
 
 end PbVerif.C06
